@@ -1,12 +1,11 @@
 //! C32 — the storage SCP stores exactly what it receives, only in its output directory.
 use crate::engine::{Ctx, Obs};
 use crate::gen::{self, DsCfg};
-use crate::ulpeer::{self, RawPeer, Recv, ToolProc};
+use crate::ulpeer::{self, RawPeer, Recv};
 use proptest::prelude::*;
 use refimpl::ds::{self, Elem, LenMode, PElem, PVal, ParseOpts, Ts, Val};
 use refimpl::pdu::{PcProposed, PduIr};
 use serde::{Deserialize, Serialize};
-use std::cell::RefCell;
 use std::io::Write;
 use std::net::TcpStream;
 use std::path::PathBuf;
@@ -43,15 +42,6 @@ pub struct Store {
 pub struct Case {
     pub non_blocking: bool,
     pub stores: Vec<Store>,
-}
-
-struct Scp {
-    proc_: ToolProc,
-    sandbox: tempfile::TempDir,
-}
-
-thread_local! {
-    static SCP: RefCell<[Option<Scp>; 2]> = const { RefCell::new([None, None]) };
 }
 
 fn ts_of(i: u8) -> (Ts, &'static str, bool) {
@@ -137,25 +127,7 @@ fn inflate(b: &[u8]) -> Option<Vec<u8>> {
 }
 
 fn check(ctx_root: &std::path::Path, c: &Case, obs: &mut Obs) {
-    let slot = c.non_blocking as usize;
-    // one storescp per worker thread and mode, with its own sandbox
-    let started = SCP.with(|s| {
-        let mut s = s.borrow_mut();
-        if let Some(x) = &mut s[slot] {
-            if let Ok(Some(_)) = x.proc_.child.try_wait() {
-                s[slot] = None;
-            }
-        }
-        if s[slot].is_none() {
-            let sandbox = tempfile::Builder::new().prefix("vcheck-c32-").tempdir().map_err(|e| e.to_string())?;
-            let out = sandbox.path().join("a").join("out");
-            std::fs::create_dir_all(&out).map_err(|e| e.to_string())?;
-            let extra: Vec<&str> = if c.non_blocking { vec!["--non-blocking"] } else { vec![] };
-            let p = ulpeer::start_storescp(ctx_root, &out, &extra, sandbox.path())?;
-            s[slot] = Some(Scp { proc_: p, sandbox });
-        }
-        Ok::<_, String>((s[slot].as_ref().unwrap().proc_.port, s[slot].as_ref().unwrap().sandbox.path().to_path_buf()))
-    });
+    let started = ulpeer::thread_storescp(ctx_root, c.non_blocking);
     let (port, sandbox) = match started {
         Ok(x) => x,
         Err(e) => {
@@ -172,28 +144,35 @@ fn check(ctx_root: &std::path::Path, c: &Case, obs: &mut Obs) {
         let _ = std::fs::remove_file(sandbox.join(&f));
     }
     obs.class(if c.non_blocking { "non-blocking" } else { "sync" });
-    let sock = match TcpStream::connect(("127.0.0.1", port)) {
-        Ok(s) => s,
-        Err(e) => {
-            obs.skip(format!("cannot connect to storescp: {e}"));
-            return;
-        }
-    };
-    let mut peer = RawPeer::new(sock);
     let t = Duration::from_secs(10);
     let pcs: Vec<PcProposed> = c.stores.iter().enumerate().map(|(i, st)| PcProposed { id: (2 * i + 1) as u8, abstract_syntax: SOP_CLASSES[st.sop_class as usize % 4].into(), transfer_syntaxes: vec![ts_of(st.ts).1.into()] }).collect();
-    if peer.send(&ulpeer::assoc_rq("STORE-SCP", "VERIF-SCU", pcs, 16384)).is_err() {
-        obs.skip("cannot send the association request");
-        return;
-    }
-    let (accepted, peer_max) = match peer.recv(t) {
-        Recv::Pdu(PduIr::AssocAc { pcs, user, .. }) => {
-            let max = user.iter().find_map(|u| if let refimpl::pdu::UserItem::MaxLength(n) = u { Some(*n) } else { None }).unwrap_or(16384);
-            (pcs, if max == 0 { 65536 } else { max })
-        }
-        other => {
-            obs.fail("C32:storescp does not accept a plain storage association", format!("{other:?}").chars().take(300).collect::<String>());
+    // associate (one retry: a connection may be lost while the tool is still starting up)
+    let mut attempt = 0;
+    let (mut peer, accepted, peer_max) = loop {
+        attempt += 1;
+        let sock = match TcpStream::connect(("127.0.0.1", port)) {
+            Ok(s) => s,
+            Err(e) => {
+                ulpeer::thread_storescp_reset(c.non_blocking);
+                obs.skip(format!("cannot connect to storescp: {e}"));
+                return;
+            }
+        };
+        let mut peer = RawPeer::new(sock);
+        if peer.send(&ulpeer::assoc_rq("STORE-SCP", "VERIF-SCU", pcs.clone(), 16384)).is_err() {
+            obs.skip("cannot send the association request");
             return;
+        }
+        match peer.recv(t) {
+            Recv::Pdu(PduIr::AssocAc { pcs, user, .. }) => {
+                let max = user.iter().find_map(|u| if let refimpl::pdu::UserItem::MaxLength(n) = u { Some(*n) } else { None }).unwrap_or(16384);
+                break (peer, pcs, if max == 0 { 65536 } else { max });
+            }
+            Recv::Eof | Recv::IoError(_) if attempt == 1 => continue,
+            other => {
+                obs.fail("C32:storescp does not accept a plain storage association", format!("{other:?}").chars().take(300).collect::<String>());
+                return;
+            }
         }
     };
     let mut expected: Vec<(String, String, Vec<u8>, Ts, String, std::collections::HashSet<(u16, u16)>)> = vec![]; // (ts uid, ds instance uid, sent data set bytes (not deflated), ts, affected text)
@@ -267,8 +246,7 @@ fn check(ctx_root: &std::path::Path, c: &Case, obs: &mut Obs) {
                 // the SCP gave up on this request: acceptable for a UID it cannot store, not for a plain one
                 obs.class("association-dropped-by-scp");
                 if matches!(st.affected_instance, UidText::Plain(_)) {
-                    let log = SCP.with(|s| s.borrow()[slot].as_ref().map(|x| std::fs::read_to_string(&x.proc_.log).unwrap_or_default()).unwrap_or_default());
-                    let tail: String = log.lines().rev().take(3).collect::<Vec<_>>().join(" | ");
+                    let tail = ulpeer::thread_storescp_log_tail(c.non_blocking, 3);
                     obs.fail("C32:storescp drops a well-formed store request", format!("affected UID {affected:?}, {ts_uid}; log: {tail}"));
                     return;
                 }
